@@ -224,9 +224,9 @@ impl<R: Round> Context<R> {
         debug_assert!(lhs.digits() <= self.precision.saturating_add(rhs.digits()));
 
         let (mut q, mut r) = lhs.significand.div_rem(&rhs.significand);
-        let mut e = lhs.exponent - rhs.exponent;
+        let mut e = lhs.exponent as i128 - rhs.exponent as i128; // i128: the difference can leave isize although the result's exponent does not
         if r.is_zero() {
-            return Approximation::Exact(Repr::new(q, e));
+            return Approximation::Exact(Repr::new(q, e as isize));
         }
 
         let ddigits = digit_len::<B>(&rhs.significand);
@@ -235,7 +235,7 @@ impl<R: Round> Context<R> {
             let rdigits = digit_len::<B>(&r); // rdigits <= ddigits
             let shift = ddigits + self.precision - rdigits;
             shl_digits_in_place::<B>(&mut r, shift);
-            e -= shift as isize;
+            e -= shift as i128;
             let (q0, r0) = r.div_rem(&rhs.significand);
             q = q0;
             r = r0;
@@ -246,7 +246,7 @@ impl<R: Round> Context<R> {
                 let shift = ddigits + self.precision - ndigits;
                 shl_digits_in_place::<B>(&mut q, shift);
                 shl_digits_in_place::<B>(&mut r, shift);
-                e -= shift as isize;
+                e -= shift as i128;
 
                 let (q0, r0) = r.div_rem(&rhs.significand);
                 q += q0;
@@ -255,10 +255,10 @@ impl<R: Round> Context<R> {
         }
 
         if r.is_zero() {
-            Approximation::Exact(Repr::new(q, e))
+            Approximation::Exact(Repr::new(q, e as isize))
         } else {
             let adjust = R::round_ratio(&q, r, &rhs.significand);
-            Approximation::Inexact(Repr::new(q + adjust, e), adjust)
+            Approximation::Inexact(Repr::new(q + adjust, e as isize), adjust)
         }
     }
 
